@@ -91,6 +91,7 @@ package io
 // legacy link-size estimate: a function value installed at init time (see size.go)
 //@ func ext global:github.com/ipfs/boxo/ipld/unixfs/private/linksize.LinkSizeFunction
 //@   pure
+//@   ensures result == linksEstimate(linkName, linkCid)
 
 //@ func (*BasicDirectory).RemoveChild
 //@   prop C17 C15
@@ -159,41 +160,94 @@ package io
 //@   ensures err == nil ==> forall(i, 0, len(opts), isMaxLinksOpt(opts[i]) ==> result0.maxLinks == optMaxLinks(opts[i]))
 // (the converted directory is built with NewBasicDirectory + addLinkChild, which establish the C17 invariant)
 //@   ensures err == nil ==> estInv(result0) && estSmall(result0) && all(nm string, 0 <= namedBytes(result0.node, nm) && namedBytes(result0.node, nm) <= linkBytes(result0.node))
-//@ func (*BasicDirectory).switchToSharding
+//@ func NewHAMTDirectory
 //@   assumed
-//@   ensures err == nil ==> result0 != nil && result0.hamtShardingSize == 0
+//@   ensures err == nil ==> result0 != nil && fresh(result0) && result0.sizeChange == sizeChange && result0.hamtShardingSize == 0 && result0.totalLinks == 0 && result0.shard != nil && fresh(result0.shard)
 //@   ensures err == nil ==> forall(i, 0, len(opts), isMaxLinksOpt(opts[i]) ==> result0.maxLinks == optMaxLinks(opts[i]))
-// HAMT -> basic rule: switch back iff the sharding threshold is enabled, the entry count after the
-// operation (one more for an added node, one less for an existing entry of that name) fits MaxLinks,
-// and - unless size estimation is disabled - the size shrank below the threshold (sizeBelowThreshold,
-// asked with the size change of exactly this operation).
-//@ func (*HAMTDirectory).linkSizeFor
-//@   assumed
-//@   pure
-//@ func (*HAMTDirectory).sizeBelowThreshold
-//@   assumed
+// basic -> HAMT: the new directory's size change is counted from just above the (effective) threshold
+// of the directory it replaces, so that "negative" means "estimate at or below the threshold" whichever
+// entry - or MaxLinks - triggered the conversion
+//@ macro fromThreshold(d) = ite(effThreshold(d) > 0, d.estimatedSize - effThreshold(d) - 1, 0)
+//@ func (*BasicDirectory).switchToSharding
+//@   prop C16
+//@   arith int-assumed
+//@   opaque pbLinkEntry pbUnixfsDirData unixPermsOf
+//@   requires d != nil && d.node != nil
+//@   modifies fields(d.node), elems(d.node.links), shardBlockBytes, shardLinksBytes, shardNamedBlock, shardNamedLinks
+//@   loop 0 invariant[new_directory_as_built] hamtDir != nil && hamtDir.shard != nil && hamtDir.hamtShardingSize == 0 && hamtDir.sizeChange == fromThreshold(d)
+//@   ensures err == nil ==> result0 != nil && result0.hamtShardingSize == 0 && result0.shard != nil
+//@   trusted[max_links_option_applied] err == nil ==> forall(i, 0, len(opts), isMaxLinksOpt(opts[i]) ==> result0.maxLinks == optMaxLinks(opts[i]))
+//@   ensures[size_change_counted_from_the_threshold] err == nil ==> result0.sizeChange == fromThreshold(d)
+// (not proved: every link is copied with SetLink, and the options passed by DynamicDirectory.AddChild
+// reproduce the estimation mode and mode/mtime, so the new directory's estimate is the old one's, which
+// C17 shows to be the size of its entries)
+//@   trusted[entries_and_configuration_carried_over] err == nil ==> hamtEst(result0) == d.estimatedSize && hamtDisabledMode(result0) == disabledMode(d)
+// ---- C16: HAMT -> basic. The documented rule: the directory is sharded exactly when the estimated
+// size is above the threshold or the link count above MaxLinks. So a HAMT goes back to basic iff,
+// after the operation, the count fits MaxLinks and the estimate of its entries is at or below the
+// threshold - whatever the history of edits was.
+//@ macro hamtBlockMode(d) = ite(d.sizeEstimation != nil, deref(d.sizeEstimation), HAMTSizeEstimation) == SizeEstimationBlock
 //@ macro hamtEffThreshold(d) = ite(d.hamtShardingSize > 0, d.hamtShardingSize, HAMTShardingSize)
 //@ macro hamtDisabledMode(d) = ite(d.sizeEstimation != nil, deref(d.sizeEstimation), HAMTSizeEstimation) == SizeEstimationDisabled
+// estimated size of what the HAMT holds, in the directory's unit (block mode: plus the Data field
+// of the equivalent basic directory), and of the entry called name (0: none)
+//@ macro hamtEst(d) = ite(hamtBlockMode(d), dataBytes(d) + shardBlockBytes(d.shard), shardLinksBytes(d.shard))
+//@ macro hamtNamed(d, name) = ite(hamtBlockMode(d), shardNamedBlock(d.shard, name), shardNamedLinks(d.shard, name))
+//@ macro entryUnit(d, name, c, t) = ite(hamtBlockMode(d), linkEntryBytes(len(name), c, t), linksEstimate(name, c))
+// the running size change is counted from just above the threshold: negative iff the estimate is at or below it
+//@ macro anchored(d) = d.sizeChange == hamtEst(d) - hamtEffThreshold(d) - 1
 //@ macro linksAfter(d, nodeToAdd, found) = d.totalLinks + ite(nodeToAdd != nil, 1, 0) - ite(found != nil, 1, 0)
+
+//@ func (*HAMTDirectory).GetSizeEstimationMode
+//@   inline
+//@ func (*HAMTDirectory).getEffectiveShardingSize
+//@   inline
+//@ func (*HAMTDirectory).linkSizeFor
+//@   prop C16
+//@   arith int-assumed
+//@   opaque pbLinkEntry pbUnixfsDirData unixPermsOf
+//@   requires d != nil && link != nil
+//@   ensures[size_of_the_entry_under_its_own_name] result == entryUnit(d, name, link.Cid, link.Size)
+//@ func (*HAMTDirectory).sizeBelowThreshold
+//@   assumed
+//@   ensures[below_iff_estimate_fits] err == nil ==> result0 == (hamtEst(d) + sizeChange <= hamtEffThreshold(d))
+//@   ensures[failed] err != nil ==> !result0
 //@ func (*HAMTDirectory).needsToSwitchToBasicDir
 //@   prop C16
-//@   arith bv
-//@   requires d != nil
+//@   arith int-assumed
+//@   opaque pbLinkEntry pbUnixfsDirData unixPermsOf
+//@   requires d != nil && d.shard != nil
+//@   requires[size_change_counted_from_the_threshold] hamtEffThreshold(d) != 0 && !hamtDisabledMode(d) ==> anchored(d)
 //@   ensures[threshold_disabled] hamtEffThreshold(d) == 0 ==> err == nil && !switchToBasic
 //@   ensures[count_only_mode] hamtEffThreshold(d) != 0 && err == nil && hamtDisabledMode(d) ==> switchToBasic == (d.maxLinks > 0 && linksAfter(d, nodeToAdd, res("call:Shard.Find#0", 0)) <= d.maxLinks)
-//@   ensures[size_and_count_rule] hamtEffThreshold(d) != 0 && err == nil && !hamtDisabledMode(d) ==> switchToBasic == ((d.maxLinks <= 0 || linksAfter(d, nodeToAdd, res("call:Shard.Find#0", 0)) <= d.maxLinks) && called("call:HAMTDirectory.sizeBelowThreshold#0") && res("call:HAMTDirectory.sizeBelowThreshold#0", 0))
-//@   site[asks_with_this_operations_size_change] call:HAMTDirectory.sizeBelowThreshold : arg2 == ite(called("call:HAMTDirectory.linkSizeFor#1"), res("call:HAMTDirectory.linkSizeFor#1", 0), 0) - ite(called("call:HAMTDirectory.linkSizeFor#0"), res("call:HAMTDirectory.linkSizeFor#0", 0), 0) && d.sizeChange + arg2 < 0
-//@   site[removed_entry_size] call:HAMTDirectory.linkSizeFor#0 : arg1 == res("call:Shard.Find#0", 0) && arg1 != nil
-//@   site[added_entry_size] call:HAMTDirectory.linkSizeFor#1 : arg1 == res("call:MakeLink#0", 0) && nodeToAdd != nil
+//@   ensures[basic_iff_rule] hamtEffThreshold(d) != 0 && err == nil && !hamtDisabledMode(d) && (res("call:Shard.Find#0", 1) == nil || res("call:Shard.Find#0", 1) == os.ErrNotExist) ==>
+//@     | switchToBasic == ((d.maxLinks <= 0 || linksAfter(d, nodeToAdd, res("call:Shard.Find#0", 0)) <= d.maxLinks) &&
+//@     |   hamtEst(d) - hamtNamed(d, name) + ite(nodeToAdd != nil, entryUnit(d, name, nodeCidOf(nodeToAdd), nodeSizeOf(nodeToAdd)), 0) <= hamtEffThreshold(d))
+//@   site[link_of_added_node] call:MakeLink : arg0 == nodeToAdd
 //@ func (*BasicDirectory).AddChild
 //@   assumed
 //@   modifies d.estimatedSize, d.totalLinks, fields(d.node), elems(d.node.links), linkBytes(d.node), namedBytes(d.node, name)
 //@ func (*HAMTDirectory).AddChild
-//@   assumed
-//@   modifies d.sizeChange, d.totalLinks
+//@   prop C16
+//@   arith int-assumed
+//@   opaque pbLinkEntry pbUnixfsDirData unixPermsOf
+//@   requires d != nil && d.shard != nil
+//@   modifies d.sizeChange, d.totalLinks, shardBlockBytes(d.shard), shardLinksBytes(d.shard), shardNamedBlock(d.shard, name), shardNamedLinks(d.shard, name)
+//@   ensures[size_change_follows_the_block_estimate] err == nil && hamtBlockMode(d) ==> d.sizeChange - old(d.sizeChange) == shardBlockBytes(d.shard) - old(shardBlockBytes(d.shard))
+//@   ensures[size_change_follows_the_links_estimate] err == nil && !hamtBlockMode(d) ==> d.sizeChange - old(d.sizeChange) == shardLinksBytes(d.shard) - old(shardLinksBytes(d.shard))
+//@   ensures[failed_changes_nothing] err != nil ==> d.sizeChange == old(d.sizeChange) && shardBlockBytes(d.shard) == old(shardBlockBytes(d.shard)) && shardLinksBytes(d.shard) == old(shardLinksBytes(d.shard)) && d.totalLinks == old(d.totalLinks)
+//@   ensures[counted_from_the_threshold_as_before] err == nil && old(anchored(d)) ==> anchored(d)
+//@   ensures[count] err == nil ==> d.totalLinks == old(d.totalLinks) + ite(old(shardNamedBlock(d.shard, name)) > 0, 0, 1)
 //@ func (*HAMTDirectory).RemoveChild
-//@   assumed
-//@   modifies d.sizeChange, d.totalLinks
+//@   prop C16
+//@   arith int-assumed
+//@   opaque pbLinkEntry pbUnixfsDirData unixPermsOf
+//@   requires d != nil && d.shard != nil
+//@   modifies d.sizeChange, d.totalLinks, shardBlockBytes(d.shard), shardLinksBytes(d.shard), shardNamedBlock(d.shard, name), shardNamedLinks(d.shard, name)
+//@   ensures[size_change_follows_the_block_estimate] err == nil && hamtBlockMode(d) ==> d.sizeChange - old(d.sizeChange) == shardBlockBytes(d.shard) - old(shardBlockBytes(d.shard))
+//@   ensures[size_change_follows_the_links_estimate] err == nil && !hamtBlockMode(d) ==> d.sizeChange - old(d.sizeChange) == shardLinksBytes(d.shard) - old(shardLinksBytes(d.shard))
+//@   ensures[failed_changes_nothing] err != nil ==> d.sizeChange == old(d.sizeChange) && shardBlockBytes(d.shard) == old(shardBlockBytes(d.shard)) && shardLinksBytes(d.shard) == old(shardLinksBytes(d.shard)) && d.totalLinks == old(d.totalLinks)
+//@   ensures[counted_from_the_threshold_as_before] err == nil && old(anchored(d)) ==> anchored(d)
 //@ func (*HAMTDirectory).GetHAMTShardingSize
 //@   inline
 //@ func (*HAMTDirectory).SetHAMTShardingSize
@@ -205,22 +259,34 @@ package io
 //@ func iface Directory.AddChild
 //@ func iface Directory.RemoveChild
 
+//@ macro asHAMT(d) = unbox(d.Directory, "*HAMTDirectory")
+//@ macro asBasic(d) = unbox(d.Directory, "*BasicDirectory")
+// a wrapped HAMT directory counts its size change from the threshold (established by switchToSharding, kept by every edit)
+//@ macro hamtTracked(h) = h.shard != nil && (hamtEffThreshold(h) != 0 && !hamtDisabledMode(h) ==> anchored(h))
 //@ func (*DynamicDirectory).AddChild
 //@   prop C16
 //@   arith bv
+//@   opaque pbLinkEntry pbUnixfsDirData
 //@   requires d != nil && isDirImpl(d.Directory) && unbox(d.Directory, "*HAMTDirectory") != nil && unbox(d.Directory, "*BasicDirectory") != nil
 //@   requires typeis(d.Directory, "*BasicDirectory") ==> unbox(d.Directory, "*BasicDirectory").node != nil
+//@   requires[a_hamt_is_tracked] typeis(d.Directory, "*HAMTDirectory") ==> hamtTracked(asHAMT(d))
+// (a negative sharding threshold is not a configuration)
+//@   requires[threshold_not_negative] typeis(d.Directory, "*BasicDirectory") ==> 0 <= effThreshold(asBasic(d))
 //@   modifies all
+//@   ensures[a_hamt_stays_tracked] err == nil && typeis(d.Directory, "*HAMTDirectory") ==> hamtTracked(asHAMT(d))
 //@   ensures[threshold_kept] err == nil ==> isDirImpl(d.Directory) && shardSizeOf(d.Directory) == old(shardSizeOf(d.Directory))
 //@   ensures[max_links_kept] err == nil ==> maxLinksOf(d.Directory) == old(maxLinksOf(d.Directory))
 
 //@ func (*DynamicDirectory).RemoveChild
 //@   prop C16
 //@   arith bv
+//@   opaque pbLinkEntry pbUnixfsDirData
 //@   requires d != nil && isDirImpl(d.Directory) && unbox(d.Directory, "*HAMTDirectory") != nil && unbox(d.Directory, "*BasicDirectory") != nil
 // (the temporary maxLinks+1 of the HAMT -> basic conversion wraps for MaxInt: excluded, see DESIGN.md)
 //@   requires[max_links_below_max_int] maxLinksOf(d.Directory) < 9223372036854775807
+//@   requires[a_hamt_is_tracked] typeis(d.Directory, "*HAMTDirectory") ==> hamtTracked(asHAMT(d))
 //@   modifies all
+//@   ensures[a_hamt_stays_tracked] err == nil && typeis(d.Directory, "*HAMTDirectory") ==> hamtTracked(asHAMT(d))
 //@   ensures[threshold_kept] err == nil ==> isDirImpl(d.Directory) && shardSizeOf(d.Directory) == old(shardSizeOf(d.Directory))
 //@   ensures[max_links_kept] err == nil ==> maxLinksOf(d.Directory) == old(maxLinksOf(d.Directory))
 
@@ -239,7 +305,7 @@ package io
 //@   requires d != nil
 //@   ensures[rule] result == (nodeToAdd != nil && entryToRemove == nil && d.maxLinks > 0 && d.totalLinks + 1 > d.maxLinks)
 //@ func ext github.com/ipfs/go-ipld-format.MakeLink
-//@   ensures err == nil ==> result0 != nil
+//@   ensures err == nil ==> result0 != nil && result0.Cid == nodeCidOf(n) && result0.Size == nodeSizeOf(n)
 //@ func (*BasicDirectory).needsToSwitchByBlockSize
 //@   prop C16
 //@   arith bv
